@@ -1093,10 +1093,22 @@ func Unspill(v ssa.Value) ssa.Value {
 
 func localFieldStore(fa *ssa.FieldAddr, load *ssa.UnOp) (ssa.Value, bool) {
 	al, ok := fa.X.(*ssa.Alloc)
-	if !ok || al.Referrers() == nil {
+	if !ok {
+		return nil, false
+	}
+	return resolveLocalField(al, fa.Field, load, 0)
+}
+
+// resolveLocalField: the value of field `field` of the local struct al at instruction `at`, when al is only ever accessed
+// field-wise, loaded or copied as a whole, and exactly one store determines the field: a store to the field itself, or
+// one store of a whole struct that is itself a load of such a local (a value receiver or parameter of an expanded
+// helper).
+func resolveLocalField(al *ssa.Alloc, field int, at ssa.Instruction, depth int) (ssa.Value, bool) {
+	if depth > 4 || al.Referrers() == nil {
 		return nil, false
 	}
 	var stores []*ssa.Store
+	var whole []*ssa.Store
 	for _, r := range *al.Referrers() {
 		switch x := r.(type) {
 		case *ssa.FieldAddr:
@@ -1109,7 +1121,7 @@ func localFieldStore(fa *ssa.FieldAddr, load *ssa.UnOp) (ssa.Value, bool) {
 					if y.Addr != ssa.Value(x) {
 						return nil, false // the field's address is stored somewhere
 					}
-					if x.Field == fa.Field {
+					if x.Field == field {
 						stores = append(stores, y)
 					}
 				case *ssa.UnOp:
@@ -1127,15 +1139,25 @@ func localFieldStore(fa *ssa.FieldAddr, load *ssa.UnOp) (ssa.Value, bool) {
 			}
 		case *ssa.DebugRef:
 		case *ssa.Store:
-			return nil, false // whole-struct store (or the address escapes into memory)
+			if x.Addr != ssa.Value(al) {
+				return nil, false // the address escapes into memory
+			}
+			whole = append(whole, x)
 		default:
 			return nil, false
 		}
 	}
-	if len(stores) != 1 || stores[0].Parent() != load.Parent() || !InstrDominates(stores[0], load) {
-		return nil, false
+	if len(stores) == 1 && len(whole) == 0 && stores[0].Parent() == at.Parent() && InstrDominates(stores[0], at) {
+		return stores[0].Val, true
 	}
-	return stores[0].Val, true
+	if len(stores) == 0 && len(whole) == 1 && whole[0].Parent() == at.Parent() && InstrDominates(whole[0], at) {
+		if ld, ok := whole[0].Val.(*ssa.UnOp); ok && ld.Op == token.MUL {
+			if src, ok := ld.X.(*ssa.Alloc); ok {
+				return resolveLocalField(src, field, ld, depth+1)
+			}
+		}
+	}
+	return nil, false
 }
 
 // DynValues resolves the concrete values an interface-typed (or any) value may hold, following
